@@ -24,16 +24,16 @@ pub fn succ_f64(x: f64) -> f64 {
     }
 }
 
-/// Plumbing component type: every angle operation is a distinct injective-looking affine map on u32, so that the
+/// Plumbing component type: every angle operation is a distinct bijection on u32 (rotate + xor: cheap for SAT), so that the
 /// composition order of generic accessor code is decided by plain bit-vector reasoning (no float circuits).
 #[derive(Clone, Copy, PartialEq, Eq, Debug)]
 pub struct Tag(pub u32);
 
 impl Tag {
-    pub fn r2d(self) -> Tag { Tag(self.0.wrapping_mul(7).wrapping_add(3)) }
-    pub fn d2r(self) -> Tag { Tag(self.0.wrapping_mul(11).wrapping_add(5)) }
-    pub fn ns(self) -> Tag { Tag(self.0.wrapping_mul(13).wrapping_add(1)) }
-    pub fn nu(self) -> Tag { Tag(self.0.wrapping_mul(17).wrapping_add(2)) }
+    pub fn r2d(self) -> Tag { Tag(self.0.rotate_left(3) ^ 0x1111_1111) }
+    pub fn d2r(self) -> Tag { Tag(self.0.rotate_left(5) ^ 0x2222_2222) }
+    pub fn ns(self) -> Tag { Tag(self.0.rotate_left(7) ^ 0x4444_4444) }
+    pub fn nu(self) -> Tag { Tag(self.0.rotate_left(11) ^ 0x8888_8888) }
 }
 
 impl palette::num::Real for Tag {
@@ -51,15 +51,35 @@ impl palette::angle::UnsignedAngle for Tag {
 }
 impl core::ops::Add for Tag {
     type Output = Tag;
-    fn add(self, o: Tag) -> Tag { Tag(self.0.wrapping_mul(3).wrapping_add(o.0)) }
+    fn add(self, o: Tag) -> Tag { Tag(self.0.rotate_left(13) ^ o.0) }
 }
 impl core::ops::Sub for Tag {
     type Output = Tag;
-    fn sub(self, o: Tag) -> Tag { Tag(self.0.wrapping_mul(5).wrapping_sub(o.0)) }
+    fn sub(self, o: Tag) -> Tag { Tag(self.0.rotate_left(17) ^ !o.0) }
 }
 impl core::ops::AddAssign for Tag {
     fn add_assign(&mut self, o: Tag) { *self = *self + o; }
 }
 impl core::ops::SubAssign for Tag {
     fn sub_assign(&mut self, o: Tag) { *self = *self - o; }
+}
+
+/// Plumbing colour types for the blanket conversion impls: conversion, clamp and bounds test are arbitrary,
+/// mutually distinguishable functions on u32.
+#[derive(Clone, Copy, PartialEq, Eq, Debug)]
+pub struct PSrc(pub u32);
+#[derive(Clone, Copy, PartialEq, Eq, Debug)]
+pub struct PDst(pub u32);
+
+impl palette::convert::FromColorUnclamped<PSrc> for PDst {
+    fn from_color_unclamped(s: PSrc) -> PDst { PDst(s.0.rotate_left(7) ^ 0x9E37_79B1) }
+}
+impl palette::Clamp for PDst {
+    fn clamp(self) -> PDst { PDst(self.0 & 0xFFFF_FF00) }
+}
+impl palette::bool_mask::HasBoolMask for PDst {
+    type Mask = bool;
+}
+impl palette::IsWithinBounds for PDst {
+    fn is_within_bounds(&self) -> bool { self.0 & 0xFF == 0 }
 }
